@@ -196,6 +196,7 @@ fn features(t: &DataType, out: &mut Vec<&'static str>) {
         }
         FixedSizeBinary(0) => add("fsb0"),
         Null => add("null"),
+        Boolean => add("bool"),
         Interval(_) => add("interval"),
         List(f) | LargeList(f) | Map(f, _) => features(f.data_type(), out),
         ListView(f) | LargeListView(f) => {
@@ -620,6 +621,7 @@ fn fail_event(f: Fail, inp: &Input, p: &Props, cnt: &mut Counters) -> Option<Val
     Some(json!({
         "op": "fail", "stage": f.stage, "panic": f.panic, "note": f.note.chars().take(200).collect::<String>(),
         "feat": feat, "cfg": cfg, "cdc": p.cdc.is_some(),
+        "pmsg": f.note.trim_start_matches("panic: ").chars().map(|c| if c.is_ascii_digit() { 'N' } else { c }).take(80).collect::<String>(),
         "types_in": schema.fields().iter().map(|x| type_str(x.data_type())).collect::<Vec<_>>(),
     }))
 }
@@ -671,7 +673,7 @@ fn rt_episode(rng: &mut Rng, pool: &[DataType], max_rows: usize, tr: &mut Shards
         Err(f) => {
             // an episode may end in a failure after some calls were recorded: the `fail` event closes it
             let e = fail_event(Fail { note: f.note.clone(), ..f }, &inp, &p, cnt)
-                .unwrap_or_else(|| json!({"op": "fail", "stage": "write", "panic": false, "note": "unsupported", "feat": schema_features(&inp.schema), "cfg": "", "cdc": false, "types_in": []}));
+                .unwrap_or_else(|| json!({"op": "fail", "stage": "write", "panic": false, "note": "unsupported", "feat": schema_features(&inp.schema), "cfg": "", "cdc": false, "pmsg": "", "types_in": []}));
             tr.emit(e);
         }
     }
